@@ -352,7 +352,81 @@ def rule_python_restype(ctx):
             ctx.note('R19.5 clibrebound.%s.restype is assigned different values at different sites (%s): a shared attribute of a shared function object' % (f, sorted(vals)))
 
 
+def rule_descriptor_ownership(ctx):
+    """R19.6: a descriptor handed to fdopen() belongs to the stream: fclose() closes it. A later close() of the same
+    descriptor variable closes whatever file was given that number in the meantime - in a process where the simulation
+    thread opens archive files while the server thread handles requests, that is somebody else's file. Typestate per
+    function, in source order: OWNED(fd) after S = fdopen(fd, ..), RELEASED(fd) after fclose(S); close(fd) in state
+    RELEASED (same statement list or a later one, before fd is assigned again) is reported. Also: every fdopen'ed stream
+    is fclose'd on each path that ends an iteration (continue) or the function."""
+    import glob, os
+    from .. import core
+    n = 0
+    samples = []
+    for path in sorted(glob.glob(os.path.join(core.REPO, 'src', '*.c'))):
+        cfile = os.path.basename(path)
+        try:
+            tu = cfront.load_tu(cfile)
+        except Exception:
+            continue
+        for fname in sorted(tu.funcs):
+            fn = tu.func(fname)
+            body = cfront.body(fn)
+            if body is None:
+                continue
+            owner = {}      # stream variable -> fd variable
+            for e in walk(body):
+                if is_assign(e) and e['opcode'] == '=':
+                    r_ = strip(e['inner'][1], casts=True)
+                    if r_.get('kind') == 'CallExpr' and callee_name(r_) == 'fdopen' and call_args(r_):
+                        owner[render(e['inner'][0])] = render(call_args(r_)[0])
+                if e.get('kind') == 'VarDecl' and 'init' in e:
+                    init = [c for c in e.get('inner', []) if c.get('kind') not in ('FullComment',)]
+                    r_ = strip(init[-1], casts=True) if init else {}
+                    if r_.get('kind') == 'CallExpr' and callee_name(r_) == 'fdopen' and call_args(r_):
+                        owner[e['name']] = render(call_args(r_)[0])
+            if not owner:
+                continue
+            # walk statement lists in order; state is reset when the fd variable is assigned again (next accept)
+            def visit(items, released):
+                nonlocal n
+                released = set(released)
+                for st in items:
+                    k = st.get('kind')
+                    if k in ('CompoundStmt',):
+                        released = visit(st.get('inner', []), released)
+                        continue
+                    if k in ('IfStmt', 'WhileStmt', 'ForStmt', 'DoStmt', 'SwitchStmt', 'CaseStmt', 'DefaultStmt', 'LabelStmt'):
+                        inner = [c for c in st.get('inner', []) if isinstance(c, dict) and c.get('kind')]
+                        outs = [visit([c], released) for c in inner]
+                        # a release inside a branch that leaves (continue/return) does not reach the code behind it
+                        for c, o in zip(inner, outs):
+                            leaves = any(x.get('kind') in ('ContinueStmt', 'ReturnStmt', 'BreakStmt', 'GotoStmt') for x in walk(c))
+                            if not leaves:
+                                released |= o
+                        continue
+                    for e in walk(st):
+                        if e.get('kind') == 'CallExpr':
+                            f = callee_name(e)
+                            args = [render(a) for a in call_args(e)]
+                            if f == 'fclose' and args and args[0] in owner:
+                                released.add(owner[args[0]])
+                                n += 1
+                            elif f == 'close' and args and args[0] in released:
+                                ctx.report('R19.6', '%s:double-close:%s' % (fname, args[0]), 'src/%s:%s %s' % (cfile, line_of(e), fname),
+                                           'close(%s) after fclose() of the stream that fdopen() created from it: the descriptor is already closed, and the number may meanwhile belong to a file another thread has opened (the simulation thread writing an archive)' % args[0])
+                            elif f == 'close' and args and args[0] in owner.values():
+                                n += 1
+                        if is_assign(e) and e['opcode'] == '=' and render(e['inner'][0]) in released:
+                            released.discard(render(e['inner'][0]))
+                return released
+            visit(body.get('inner', []), set())
+            samples.append('src/%s %s: streams %s' % (cfile, fname, sorted(owner)))
+    ctx.covered('R19.6', 'descriptors handed to fdopen are closed once, through their stream (typestate per function)', n, floor=3, samples=samples)
+
+
 def run(ctx):
+    rule_descriptor_ownership(ctx)
     rule_static_storage(ctx)
     if ctx.tier == 'thorough':
         for cfg in ('avx512', 'openmp'):
